@@ -42,6 +42,8 @@ def decOp (j : Json) : Except String Op := do
     -- leader: 0 = no endpoint published for the cluster's shard, k > 0 = leader number k
     pure (.sync (← J.getBool j "fail") (← J.getNat j "n") (if l = 0 then none else some l) (← J.getInt j "now"))
   | "event" => pure .event
+  | "acquire" => pure (.acquire (← J.getNat j "id"))
+  | "release" => pure (.release (← J.getNat j "id"))
   | "tick" =>
     let ans ← match J.optObj j "ans" with
       | none => pure none
@@ -105,7 +107,8 @@ def encObs (o : Obs) : Json :=
          ("tokens", J.int o.tokens), ("tokenBatch", J.int o.tokenBatch), ("tokenInflight", J.int o.tokenInflight),
          ("wqps", J.int o.wqps), ("wburst", J.int o.wburst), ("ready", J.bool o.ready), ("ret", J.bool o.ret),
          ("remoteConfig", encOpt encItem o.remoteConfig), ("leader", J.nat o.leader),
-         ("event", J.bool o.event), ("lastSync", J.int o.lastSync), ("req", encOpt J.int o.req)]
+         ("event", J.bool o.event), ("lastSync", J.int o.lastSync), ("req", encOpt J.int o.req),
+         ("admitted", encOpt J.bool o.admitted)]
 
 def optLim (j : Json) (k : String) : Except String (Option Lim) :=
   match J.optObj j k with
@@ -123,7 +126,8 @@ def decObs (j : Json) : Except String Obs := do
          tokenInflight := ← J.getInt j "tokenInflight", wqps := ← J.getInt j "wqps", wburst := ← J.getInt j "wburst",
          ready := ← J.getBool j "ready", ret := ← J.getBool j "ret", remoteConfig := rc,
          leader := ← J.getNat j "leader", event := ← J.getBool j "event", lastSync := ← J.getInt j "lastSync",
-         req := ← optInt j "req" }
+         req := ← optInt j "req",
+         admitted := ← (match J.optObj j "admitted" with | none => pure none | some v => do pure (some (← v.getBool?))) }
 
 def encVerdict (v : List (List String)) : Json :=
   Json.arr (v.map fun l => Json.arr (l.map Json.str).toArray).toArray
@@ -135,6 +139,7 @@ def doCase (a : Json) : Except String Json := do
   let r := run cfg ops
   let base := [("model", Json.arr (r.1.map encObs).toArray),
                ("panic", encOpt Json.str r.2),
+               ("counts", Json.arr ((countsFrom (initState cfg) ops).map fun c => Json.arr #[J.int c.1, J.int c.2]).toArray),
                ("verdictModel", encVerdict (judgeAll cfg ops r.1))]
   match J.optObj a "obs" with
   | none => pure (J.obj base)
